@@ -132,8 +132,8 @@ def e2e_body(line):
     return [line]
 
 
-def check_e2e(ctx, body, why, sync=("0 = TS 4", "0 = B 1000000000")):
-    text = mk(res=960, sync=list(sync), tracks={"ExpertSingle": body})
+def check_e2e(ctx, body, why, sync=("0 = TS 4", "0 = B 1000000000"), events=()):
+    text = mk(res=960, sync=list(sync), events=list(events), tracks={"ExpertSingle": body})
     try:
         res = refmodel.model(text)
     except refmodel.OutOfDomain as e:
@@ -152,6 +152,7 @@ def run_shard(shard, ctx):
     elif kind == "nearmiss":
         _nearmiss(ctx)
         _foreign_digits(ctx)
+        _shared_text(ctx)
     else:
         _groups(ctx, shard[1])
 
@@ -259,6 +260,18 @@ def _groups(ctx, kind):
 
 
 NEAR_MISS = ("2 = S 64 5", "2 = S 0 1", "2 = N 8 0", "2 = E two words", "", "garbage", "2 = S 2", "2 = N 0", '2 = E "section a"', "{", "}", "50% x")
+
+
+def _shared_text(ctx):
+    """A string that BOTH the events section and an instrument section recognise (a quoted one-word event) written
+    identically in both: each section decodes it as its own kind; also lines of the sync / events section repeated
+    verbatim in the track (there they are near-misses)."""
+    for w in ('"solo"', '"x"', '"é"'):
+        for t in (2, 768):
+            ln = "%d = E %s" % (t, w)
+            for evs, body in (([ln], [ln]), ([ln, ln], ["1 = N 0 0", ln, "%d = E after" % (t + 1)]), (['1 = E "section a"', ln], [ln, ln])):
+                check_e2e(ctx, body, "line %r written identically in [Events] and in the track" % ln, events=evs)
+    check_e2e(ctx, ["0 = TS 4", "0 = B 1000000000", "2 = N 1 0"], "sync lines repeated verbatim in the track")
 
 
 def _foreign_digits(ctx):
